@@ -59,8 +59,8 @@ type c05Scenario struct {
 
 // attributes that do not refer to other services or resources and are valid on any service
 var c05Extras = []string{"extra_hosts", "ports", "expose", "sysctls", "ulimits", "healthcheck", "logging", "deploy", "tmpfs", "dns_search", "cap_drop",
-	"security_opt", "annotations", "devices", "entrypoint", "hostname", "working_dir", "stop_signal", "restart", "privileged", "read_only", "mem_limit",
-	"cpus", "pids_limit", "shm_size", "blkio_config", "storage_opt", "group_add", "post_start", "x-ext", "develop", "gpus", "stop_grace_period"}
+	"annotations", "devices", "entrypoint", "hostname", "working_dir", "stop_signal", "restart", "privileged", "read_only", "mem_limit",
+	"cpus", "pids_limit", "shm_size", "blkio_config", "storage_opt", "post_start", "x-ext", "develop", "gpus", "stop_grace_period"}
 
 func (sc *c05Scenario) find(file, name string) *c05Svc {
 	for i := range sc.Svcs {
@@ -196,6 +196,13 @@ func genC05(r *zsimrt.Run) *c05Scenario {
 			}
 		}
 	}
+	if r.Chance("extra-focus", 1, 3) {
+		// one attribute outside the vocabulary on every service of the scenario: its merge meets itself along every chain
+		a := c05Extras[r.Draw("extra-focus-attr", len(c05Extras))]
+		for i := range sc.Svcs {
+			sc.Svcs[i].Extra = append(sc.Svcs[i].Extra, a)
+		}
+	}
 	for i := range sc.Svcs {
 		b, _ := json.Marshal(sc.Svcs[i].Attrs)
 		if sc.Svcs[i].File != sc.Main && sc.Svcs[i].ExtSvc == "" && string(b) == "{}" && len(sc.Svcs[i].Extra) == 0 && r.Chance("null-base", 1, 2) {
@@ -220,6 +227,7 @@ func genC05(r *zsimrt.Run) *c05Scenario {
 			break
 		}
 		for i := range ring {
+			ring[i].Null = false
 			nx := ring[(i+1)%len(ring)]
 			ring[i].ExtSvc = nx.Name
 			if nx.File != ring[i].File {
